@@ -5,11 +5,22 @@ number of slices declared for every chunk of the lazy build."""
 _W = dict(gen="Build", file="abtem/potentials/iam.py", func="_FieldBuilder.build",
           params_map={"first_slice": "first", "last_slice": "last"}, params=["first", "last"],
           param_types={"first": "Int", "last": "Int"}, ret="Int", modes=["rat"])
+_C = dict(gen="Build", file="abtem/potentials/iam.py", func="CrystalPotential.generate_slices",
+          params_map={"first_slice": "first", "last_slice": "last", "slice_idx": "idx"}, params=["first", "idx", "last"],
+          param_types={"first": "Int", "last": "Int", "idx": "Int"}, ret="Int", modes=["rat"])
 SITES = [
     # array = xp.zeros(self.ensemble_shape + (last_slice - first_slice,) + self.base_shape[1:], …)
     dict(_W, name="eagerWidth", select=("assign", "array", 1), path=["args", 0, "left", "right", "elts", 0]),
     # chunks = chunks + (last_slice - first_slice,) + self.base_shape[1:]
     dict(_W, name="lazyWidth", select=("assign", "chunks", 1), path=["left", "right", "elts", 0]),
+    # _FieldBuilderFromAtoms.generate_slices: generate_chunks(last_slice - first_slice, chunks=1, start=first_slice)
+    dict(_W, name="atomsCount", func="_FieldBuilderFromAtoms.generate_slices", select=("callarg", "generate_chunks", 0, 0)),
+    dict(_W, name="atomsStart", func="_FieldBuilderFromAtoms.generate_slices", select=("kwarg", "start", 0)),
+    # CrystalPotential.generate_slices: window test, stop test and the flag slice of the running counter
+    dict(_C, name="crystalInWindow", select=("iftest", "first_slice <= slice_idx", 0), ret="Bool"),
+    dict(_C, name="crystalStop", select=("iftest", "slice_idx >= last_slice", 0), ret="Bool"),
+    dict(_C, name="crystalFlagLo", select=("subscript_load", "exit_plane_after", 0), path=["slice", "lower"]),
+    dict(_C, name="crystalFlagHi", select=("subscript_load", "exit_plane_after", 0), path=["slice", "upper"]),
 ]
 FINGERPRINTS = {
     "BaseField._exit_plane_after": ("abtem/potentials/iam.py", "BaseField._exit_plane_after"),
